@@ -29,7 +29,7 @@ MUTATIONS = [
     "kw_changed", "kw_added", "kw_removed", "literal_lookalike", "prop_required", "prop_source", "prop_key",
     "class_swapped", "sub_replaced", "elements_reordered", "prop_removed",
 ]
-REQUIRED_COUNTERS = ["pairs.rebuild", "pairs.rebuild_one_used", "pairs.mutant", "equal.true", "equal.false", "equal_pairs.values_compared",
+REQUIRED_COUNTERS = ["pairs.rebuild", "pairs.rebuild_one_used", "pairs.root_is_subclass", "pairs.mutant", "equal.true", "equal.false", "equal_pairs.values_compared",
                      "equal_pairs.json_compared", "reflexive", "symmetric"] + [f"mut.{m}" for m in MUTATIONS]
 
 ANCHORS = [
@@ -170,7 +170,12 @@ def mutate_spec(rng, spec):
                 holder[name] = pspec
                 aimed = [{}, {json_name: None}]
             elif choice == "prop_source":
-                pspec["source"] = (json_name + "_src") if rng.random() < 0.7 else None
+                if pspec.get("source") == "":
+                    pspec["source"] = None  # JSON name "" vs JSON name == attribute name
+                elif rng.random() < 0.15:
+                    pspec["source"] = ""
+                else:
+                    pspec["source"] = (json_name + "_src") if rng.random() < 0.7 else None
                 if pspec["source"] is None and holder[name].get("source") is None:
                     pspec["source"] = name + "2"
                 holder[name] = pspec
@@ -211,8 +216,10 @@ def mutate_spec(rng, spec):
             elif kind == "Not":
                 node["element"] = new
             elif kind == "Array":
-                if isinstance(node["items"], list):
+                if isinstance(node["items"], list) and node["items"]:
                     node["items"][rng.randrange(len(node["items"]))] = new
+                elif isinstance(node["items"], list):
+                    node["items"] = [new]
                 else:
                     node["items"] = new
             else:
@@ -316,6 +323,9 @@ def run_shard(ctx):
         gen = gen_dsl.Gen(rng, max_depth=rng.choice([0, 1, 2, 2]), share=0.05, defaults=0.35,
                           inheritance=0.15)
         spec = gen.klass(2) if idx % 3 == 0 else gen.spec()
+        if idx % 8 == 5:
+            spec = gen.family(2, levels=rng.choice([2, 3]))
+            ctx.count("pairs.root_is_subclass")
         if spec["t"] == "ref":
             continue
         try:
@@ -330,7 +340,15 @@ def run_shard(ctx):
             # are still independently built copies of the same schema
             ctx.count("pairs.rebuild_one_used")
             schema = gen_dsl.to_schema(spec)
-            for value in (gv.batch_for_schema(rng, schema, schema, count=5) if isinstance(schema, dict) else [1, "a"]):
+            warm = gv.batch_for_schema(rng, schema, schema, count=5) if isinstance(schema, dict) else [1, "a"]
+            # the other classes of the used copy (bases, nested classes) first, then the copy itself
+            from vlib.checks.c08 import tree_classes  # pylint: disable=import-outside-toplevel
+
+            for cls in tree_classes(sut, left):
+                if cls is not left:
+                    for value in warm[:3]:
+                        sut.call(cls, copy.deepcopy(value))
+            for value in warm:
                 sut.call(left, value)
             for observe in (repr, sut.serialize_json, sut.serialize_python):
                 try:
